@@ -181,12 +181,25 @@ def column_info_from_node(root):
         if table_name is None or table_name not in ['a', 'b']:
             return None
         slice_root = get_field(root, 'slice')
-        if slice_root is None or not isinstance(slice_root, ast.Index):
+        if slice_root is None:
             return None
-        slice_val_root = get_field(slice_root, 'value')
+        if hasattr(ast, 'Index') and isinstance(slice_root, ast.Index):
+            slice_val_root = get_field(slice_root, 'value')
+        else:
+            slice_val_root = slice_root # Since Python 3.9 the subscript expression is stored directly, without ast.Index
         column_index = None
         column_name = None
-        if isinstance(slice_val_root, ast.Str):
+        if hasattr(ast, 'Constant') and isinstance(slice_val_root, ast.Constant):
+            # Since Python 3.8 string and number literals are parsed into ast.Constant
+            slice_val = get_field(slice_val_root, 'value')
+            if is_str6(slice_val):
+                column_name = slice_val
+                table_name = None # We don't need table name for named fields
+            elif isinstance(slice_val, int) and not isinstance(slice_val, bool):
+                column_index = slice_val - 1
+            else:
+                return None
+        elif isinstance(slice_val_root, ast.Str):
             column_name = get_field(slice_val_root, 's')
             table_name = None # We don't need table name for named fields
         elif isinstance(slice_val_root, ast.Num):
